@@ -112,6 +112,7 @@ type Node struct {
 	OnClose    func(ctx context.Context)
 	OnReopen   func()
 	NoCloser   bool
+	Yield      bool // scheduling point inside Process (a node takes time)
 	ProbeTag   string // what probe Sends report for this object
 	DumpName   string // canonical name used in state dumps and probe logs (set by the harness)
 	serial     int
@@ -128,6 +129,9 @@ func (n *Node) Process(ctx context.Context, e *el.Event) (*el.Event, error) {
 	i := n.L.callTag(n.Name, n.probeTag(), e)
 	if n.OnProcess != nil {
 		n.OnProcess(ctx, e)
+	}
+	if n.Yield {
+		vrt.Point("inside node " + n.Name)
 	}
 	var out *el.Event
 	var err error
